@@ -1,19 +1,22 @@
-(** * C20 — the matrix form of the kernels IS the composition of the verified component models.
+(** * C20 — the matrix form of the kernels IS the composition of the verified component models, and that composition
+    IS the matrix of the scalar form.
 
     [Model/KernelsPlumbing.v] writes [RBFKernel::forward] / [RationalQuadraticKernel::forward] on Vector / Matrix
-    arguments as the composition of the model functions of C15 (reshape), C04 (powi, scalar-matrix arithmetic, maps),
-    C12 (broadcast sum of a column and a row) and C05 ([dot_t]) in the order the Rust code calls them.  Here: for
+    arguments (repaired code: the differences x_i - y_j are formed first, by broadcasting the column of x against the row
+    of y) as the composition of the model functions of C15 (reshape, size), C12 (broadcast difference of a column and a
+    row) and C04 (powi, negation, scalar-matrix arithmetic, maps) in the order the Rust code calls them.  Here: for
     every carrier [T] and every operations record (no algebraic law), for all point sets and all four argument types,
-    the composition returns exactly the matrix of the net entry formula [rbf_entry] / [rq_entry] of [Model/Kernels.v]
-    (one row per first-argument point, one column per second-argument point), and panics exactly when a point set is
-    empty (or a Matrix argument violates the struct invariant).  The proofs only use the pinned theorems of the
-    component properties ([C04_*], [C05_matmul_spec], [C12_broadcast_numpy]) and the computation of the reshape
-    dimension logic of C15. *)
+    the composition returns exactly the |xs| x |ys| matrix whose entries are the scalar form's operations applied, in the
+    scalar form's order, to the element-wise square of x_i - y_j as the [powi] kernel computes it ([d * d] in its 8-wide
+    unrolled part, [d.powi(2)] in its remainder loop), and panics exactly when a point set is empty (or a Matrix
+    argument violates the struct invariant).  Wherever [d * d = d.powi(2)] (reals; binary64, bit for bit) that is the
+    matrix of the SCALAR form [rbf] / [rq] of [Model/Kernels.v], entry by entry.  The proofs only use the pinned theorems of the
+    component properties ([C04_*], [C12_broadcast_numpy]) and the computation of the reshape dimension logic of C15. *)
 From Coq Require Import List Arith ZArith Bool Lia.
 From Compute Require Import Base.Ops Base.ListMat.
-From Compute Require Import Model.Shape Model.Broadcast Model.Vops Model.MatMul Model.Kernels Model.KernelsPlumbing.
-From Compute Require Import Spec.Broadcast Spec.MatMul Spec.Vops.
-From Compute Require Proofs.C04 Proofs.C04Ops Proofs.C05 Proofs.C12.
+From Compute Require Import Model.Shape Model.Broadcast Model.Vops Model.Kernels Model.KernelsPlumbing.
+From Compute Require Import Spec.Broadcast Spec.Vops.
+From Compute Require Proofs.C04 Proofs.C04Ops Proofs.C05 Proofs.C12 Proofs.C20.
 Import ListNotations.
 
 (** ** What the statements are written with *)
@@ -31,26 +34,27 @@ Definition points {T} (a : karg T) : option (list T) :=
 
 Section Entry.
   Context {T : Type} (O : Ops T).
-  (** the entry formulas of [Model/Kernels.v] with the two squares as separate arguments (the element-wise [powi]
-      kernel computes the square as [x * x] in its unrolled part and as [x.powi(2)] in its remainder loop) *)
-  Definition sqdist_sq (x2 y2 x y : T) : T :=
-    sub O (add O x2 y2) (mul O (two O) (add O (zero O) (mul O x y))).
-  Definition rbf_entry_sq (var ls x2 y2 x y : T) : T :=
-    mul O (f1 O Exp (div O (neg O (sqdist_sq x2 y2 x y)) (mul O (two O) (powi O ls 2)))) var.
-  Definition rq_entry_sq (var alpha ls x2 y2 x y : T) : T :=
-    mul O (f2 O Pow (add O (one O) (div O (sqdist_sq x2 y2 x y) (mul O (mul O (two O) alpha) (powi O ls 2)))) (neg O alpha)) var.
+  (** what the scalar forms of [Model/Kernels.v] do AFTER the squared difference [s = (x - y).powi(2)], in their order *)
+  Definition rbf_of_sq (var ls s : T) : T :=
+    mul O (f1 O Exp (div O (neg O s) (mul O (two O) (powi O ls 2)))) var.
+  Definition rq_of_sq (var alpha ls s : T) : T :=
+    mul O (f2 O Pow (add O (one O) (div O s (mul O (mul O (two O) alpha) (powi O ls 2)))) (neg O alpha)) var.
 
-  Lemma rbf_entry_is_sq var ls x y : rbf_entry O var ls x y = rbf_entry_sq var ls (powi O x 2) (powi O y 2) x y.
+  Lemma rbf_is_of_sq var ls x y : rbf O var ls x y = rbf_of_sq var ls (powi O (sub O x y) 2).
   Proof. reflexivity. Qed.
-  Lemma rq_entry_is_sq var alpha ls x y :
-    rq_entry O var alpha ls x y = rq_entry_sq var alpha ls (powi O x 2) (powi O y 2) x y.
+  Lemma rq_is_of_sq var alpha ls x y : rq O var alpha ls x y = rq_of_sq var alpha ls (powi O (sub O x y) 2).
   Proof. reflexivity. Qed.
 
-  (** the [n x m] table of an entry function of (x², y², x, y), row-major, squares taken from the [powi] kernel *)
-  Definition table_sq (F : T -> T -> T -> T -> T) (xs ys : list T) : list T :=
-    concat (tabulate (length xs) (length ys)
-              (fun i j => F (nth i (vpowi O xs 2) (zero O)) (nth j (vpowi O ys 2) (zero O))
-                            (nth i xs (zero O)) (nth j ys (zero O)))).
+  Lemma scalar_form_is_of_sq var alpha ls x y :
+    rbf O var ls x y = rbf_of_sq var ls (powi O (sub O x y) 2) /\
+    rq O var alpha ls x y = rq_of_sq var alpha ls (powi O (sub O x y) 2).
+  Proof. split; reflexivity. Qed.
+
+  (** the [n x m] table of the differences x_i - y_j, row-major (what the broadcast of the column against the row
+      returns), and its element-wise square as the [powi] kernel of C04 computes it *)
+  Definition diff_table (xs ys : list T) : list T :=
+    concat (tabulate (length xs) (length ys) (fun i j => sub O (nth i xs (zero O)) (nth j ys (zero O)))).
+  Definition sq_table (xs ys : list T) : list T := vpowi O (diff_table xs ys) 2.
 End Entry.
 
 (** ** Lists: row-major tables *)
@@ -206,13 +210,18 @@ Section Steps.
       + replace (Z.of_nat sz <? 0)%Z with false by (symmetry; apply Z.ltb_ge; lia). reflexivity.
   Qed.
 
-  Lemma inv_b_col (n : nat) (d : list T) : length d = n -> 0 < n -> inv_b (mkMat n 1 d) = true.
+  (** [Vector::reshape(1, -1)] = [Matrix::new(v.clone(), 1, -1)]: a [1 x len] matrix for EVERY vector, the empty one
+      included (refused one step later, by the assertion on the sizes) *)
+  Lemma new_row (v : list T) : Shape.new v 1 (-1) = Some (mkMat 1 (length v) v).
   Proof.
-    intros E L. unfold inv_b. cbn [nrows ncols data]. rewrite Nat.mul_1_r, E, Nat.eqb_refl.
-    apply Nat.ltb_lt in L. rewrite L. reflexivity.
+    unfold Shape.new, reshape_mut, Shape.size, reshape_dims. cbn [nrows ncols data].
+    change ((0 <? 1)%Z) with true. change ((0 <? -1)%Z) with false. change ((1 <? 0)%Z) with false.
+    change ((-1 <? 0)%Z) with true. cbn [andb].
+    change (((-1 =? -1) && true)%Z) with true. cbn [guard bind]. change (Z.to_nat 1) with 1.
+    rewrite Nat.mod_1_r, Nat.div_1_r, Nat.mul_1_l. reflexivity.
   Qed.
 
-  (** *** [x.reshape(-1, 1)] on the four argument types *)
+  (** *** [x.reshape(-1, 1)] and [y.reshape(1, -1)] on the four argument types *)
   Lemma to_column_spec (a : karg T) :
     to_column a =
     match a with
@@ -220,27 +229,13 @@ Section Steps.
     | KMatrix m | KRefMatrix m => if inv_b m then Some (mkMat (length (Shape.data m)) 1 (Shape.data m)) else None
     end.
   Proof. destruct a; cbn [to_column]; auto using new_col, reshape_col. Qed.
-
-  (** *** C05: [x.dot_t(y)] of an [n x 1] and an [m x 1] matrix is the outer product accumulated from zero *)
-  Lemma dot_t_columns (xs ys : list T) :
-    0 < length xs -> 0 < length ys ->
-    mat_mat_dot O DotNT (b2m (mkmat (length xs) 1 xs)) (b2m (mkmat (length ys) 1 ys)) =
-    Some (@MatMul.Build_matrix T (length xs) (length ys)
-            (concat (tabulate (length xs) (length ys) (fun i j => add O z (mul O (nth i xs z) (nth j ys z)))))).
-  Proof.
-    intros Hn Hm. unfold mat_mat_dot, b2m. cbn [MatMul.nr MatMul.nc MatMul.dat Broadcast.nr Broadcast.nc Broadcast.dat].
-    cbn [Nat.eqb guard bind].
-    pose proof (C05.matmul_spec O xs ys (length xs) (length ys) false true) as H.
-    unfold dims in H.
-    apply Nat.ltb_lt in Hn, Hm. rewrite Hn, Hm in H. apply Nat.ltb_lt in Hn, Hm.
-    rewrite !Nat.mod_same, !Nat.div_same in H by lia. cbn [Nat.eqb andb] in H.
-    destruct H as (c & Hc & Hlen & Hent). rewrite Hc. cbn [bind].
-    unfold MatMul.matrix_new. rewrite Hlen, Nat.eqb_refl.
-    apply Nat.ltb_lt in Hn, Hm. rewrite Hn, Hm. apply Nat.ltb_lt in Hn, Hm. cbn [andb guard bind].
-    f_equal. f_equal. apply (table_ext c _ _ _ z Hlen).
-    intros i j Hi Hj. rewrite (Hent i j Hi Hj). unfold sumk, opA, opB. cbn [seq fold_left].
-    rewrite !Nat.mul_1_r, !Nat.add_0_r. reflexivity.
-  Qed.
+  Lemma to_row_spec (a : karg T) :
+    to_row a =
+    match a with
+    | KVector v | KRefVector v => Some (mkMat 1 (length v) v)
+    | KMatrix m | KRefMatrix m => if inv_b m then Some (mkMat 1 (length (Shape.data m)) (Shape.data m)) else None
+    end.
+  Proof. destruct a; cbn [to_row]; auto using new_row, reshape_row. Qed.
 End Steps.
 
 Section Compose.
@@ -265,56 +260,46 @@ Section Compose.
     apply (C04Ops.mat_op_scalar O tr TyMatrix r m s Hr); [reflexivity|exact Hwf].
   Qed.
 
-  (** C12: a column plus a row *)
-  Lemma column_plus_row (a b : list T) :
+  (** C12: a column [op] a row, any operator token, every size n, m >= 1 (1 x 1 against 1 x 1: the equal-shape arm;
+      1 x 1 against a row / a column against 1 x 1: the scalar arms; otherwise the outer loop) *)
+  Lemma column_op_row (t : vtok) (a b : list T) :
     0 < length a -> 0 < length b ->
-    mat_binop O VAdd (mkmat (length a) 1 a) (mkmat 1 (length b) b) =
+    mat_binop O t (mkmat (length a) 1 a) (mkmat 1 (length b) b) =
     Some (mkmat (length a) (length b)
-            (concat (tabulate (length a) (length b) (fun i j => add O (nth i a z) (nth j b z))))).
+            (concat (tabulate (length a) (length b) (fun i j => tok_fn O t (nth i a z) (nth j b z))))).
   Proof.
     intros Hn Hm. rewrite C04Ops.mat_binop_broadcast.
-    rewrite (C12.broadcast_numpy (tok_fn O VAdd) _ _ z) by (apply wf_mkmat; lia).
+    rewrite (C12.broadcast_numpy (tok_fn O t) _ _ z) by (apply wf_mkmat; lia).
     cbn [Broadcast.nr Broadcast.nc Broadcast.dat].
     assert (Hc : np_compatible_b (length a) 1 1 (length b) = true).
     { unfold np_compatible_b, dim_compatible_b. cbn [Nat.eqb]. rewrite !orb_true_r. destruct (1 =? length b); reflexivity. }
     rewrite Hc. rewrite (Nat.max_l (length a) 1), (Nat.max_r 1 (length b)) by lia.
     f_equal. f_equal. unfold np_data.
     rewrite (Nat.max_l (length a) 1), (Nat.max_r 1 (length b)) by lia.
-    apply table_ext_fun. intros i j Hi Hj. unfold np_entry, flat_at, bidx. cbn [Nat.eqb tok_fn].
+    apply table_ext_fun. intros i j Hi Hj. unfold np_entry, flat_at, bidx. cbn [Nat.eqb].
     assert (Ei : (if length a =? 1 then 0 else i) = i) by (destruct (Nat.eqb_spec (length a) 1); lia).
     assert (Ej : (if length b =? 1 then 0 else j) = j) by (destruct (Nat.eqb_spec (length b) 1); lia).
     rewrite Ei, Ej, Nat.mul_1_r, Nat.add_0_r, Nat.mul_0_l, Nat.add_0_l. reflexivity.
   Qed.
 
-  (** [x.powi(2).reshape(-1, 1) + y.powi(2).reshape(1, -1) - 2. * x.dot_t(y)] on two columns *)
-  Lemma sqdist_plumbing_spec (xs ys : list T) :
-    sqdist_plumbing O (mkMat (length xs) 1 xs) (mkMat (length ys) 1 ys) =
+  Lemma diff_table_length (xs ys : list T) : length (diff_table O xs ys) = length xs * length ys.
+  Proof. apply table_length. Qed.
+  Lemma sq_table_length (xs ys : list T) : length (sq_table O xs ys) = length xs * length ys.
+  Proof. unfold sq_table. rewrite C04.vpowi_length. apply diff_table_length. Qed.
+
+  (** the assertion on the sizes, then [(x - y).powi(2)] on a column and a row *)
+  Lemma sqdiff_plumbing_spec (xs ys : list T) :
+    sqdiff_plumbing O (mkMat (length xs) 1 xs) (mkMat 1 (length ys) ys) =
     if (0 <? length xs) && (0 <? length ys)
-    then Some (mkmat (length xs) (length ys) (table_sq O (sqdist_sq O) xs ys)) else None.
+    then Some (mkmat (length xs) (length ys) (sq_table O xs ys)) else None.
   Proof.
-    unfold sqdist_plumbing. unfold s2b at 1. cbn [nrows ncols data].
-    destruct (Nat.ltb_spec 0 (length xs)) as [Hn|Hn].
-    2:{ assert (E : length xs = 0) by lia. unfold mat_powi, mat_of, matrix_new. cbn [Broadcast.nr Broadcast.nc].
-        rewrite E. reflexivity. }
-    rewrite C04Ops.mat_powi_wf by (apply wf_mkmat; lia). cbn [bind Broadcast.nr Broadcast.nc Broadcast.dat].
-    assert (Lx := C04.vpowi_length O xs 2). assert (Ly := C04.vpowi_length O ys 2).
-    unfold b2s at 1. cbn [Broadcast.nr Broadcast.nc Broadcast.dat].
-    rewrite reshape_col, inv_b_col by (auto; lia). cbn [bind data].
-    unfold s2b at 1. cbn [nrows ncols data].
-    destruct (Nat.ltb_spec 0 (length ys)) as [Hm|Hm].
-    2:{ assert (E : length ys = 0) by lia. unfold mat_powi, mat_of, matrix_new. cbn [Broadcast.nr Broadcast.nc].
-        rewrite E. reflexivity. }
-    rewrite C04Ops.mat_powi_wf by (apply wf_mkmat; lia). cbn [bind Broadcast.nr Broadcast.nc Broadcast.dat].
-    unfold b2s at 1. cbn [Broadcast.nr Broadcast.nc Broadcast.dat].
-    rewrite reshape_row, inv_b_col by (auto; lia). cbn [bind data andb].
-    unfold s2b. cbn [nrows ncols data].
-    pose proof (column_plus_row (vpowi O xs 2) (vpowi O ys 2)) as Hs. rewrite Lx, Ly in Hs.
-    rewrite Lx, Ly, Hs by assumption. cbn [bind].
-    rewrite dot_t_columns by assumption. cbn [bind]. unfold m2b. cbn [MatMul.nr MatMul.nc MatMul.dat].
-    rewrite f64_op_matrix_wf; [|cbn; discriminate|apply wf_mkmat; auto using table_length]. cbn [bind Broadcast.nr Broadcast.nc Broadcast.dat].
-    rewrite C04Ops.mat_binop_same_shape; [|apply wf_mkmat; auto using table_length|apply wf_mkmat; auto; rewrite map_length; apply table_length|reflexivity|reflexivity].
-    cbn [Broadcast.nr Broadcast.nc Broadcast.dat]. f_equal. f_equal.
-    rewrite table_map, table_map2. unfold table_sq. apply table_ext_fun. intros i j Hi Hj. reflexivity.
+    unfold sqdiff_plumbing, Shape.size. cbn [nrows ncols data]. rewrite Nat.mul_1_r, Nat.mul_1_l.
+    destruct (Nat.ltb_spec 0 (length xs)) as [Hn|Hn]; [|reflexivity].
+    destruct (Nat.ltb_spec 0 (length ys)) as [Hm|Hm]; [|reflexivity].
+    cbn [andb guard bind]. unfold s2b. cbn [nrows ncols data].
+    rewrite (column_op_row VSub xs ys Hn Hm). cbn [bind tok_fn].
+    rewrite C04Ops.mat_powi_wf by (apply wf_mkmat; auto using table_length).
+    reflexivity.
   Qed.
 End Compose.
 
@@ -322,8 +307,8 @@ Section Forward.
   Context {T : Type} (O : Ops T).
   Local Notation z := (zero O).
 
-  (** the column an argument becomes is the column of its point set; no point set = the call panics (an empty Vector
-      does become a 0 x 1 matrix: it is refused one step later) *)
+  (** the column / the row an argument becomes is the column / the row of its point set; no point set = the call panics
+      (an empty Vector does become a 0 x 1 / 1 x 0 matrix: it is refused one step later, by the assertion) *)
   Lemma to_column_points (a : karg T) :
     match points a with
     | Some xs => xs <> [] /\ to_column a = Some (mkMat (length xs) 1 xs)
@@ -336,109 +321,158 @@ Section Forward.
          unfold inv_b in E; apply andb_true_iff in E; destruct E as [_ E]; apply Nat.ltb_lt in E;
          intros H; rewrite H in E; cbn in E; lia.
   Qed.
-
-  Lemma sqdist_empty_l (y : Shape.mat T) : sqdist_plumbing O (mkMat 0 1 []) y = None.
-  Proof. reflexivity. Qed.
-  Lemma sqdist_empty_r (xs : list T) : sqdist_plumbing O (mkMat (length xs) 1 xs) (mkMat 0 1 []) = None.
+  Lemma to_row_points (a : karg T) :
+    match points a with
+    | Some ys => ys <> [] /\ to_row a = Some (mkMat 1 (length ys) ys)
+    | None => to_row a = None \/ to_row a = Some (mkMat 1 0 [])
+    end.
   Proof.
-    change (mkMat 0 1 (@nil T)) with (mkMat (length (@nil T)) 1 (@nil T)).
-    rewrite (sqdist_plumbing_spec O xs []). cbn [length Nat.ltb Nat.leb]. rewrite andb_false_r. reflexivity.
+    rewrite to_row_spec. destruct a as [v|v|m|m]; cbn [points].
+    1,2: destruct v; [right; reflexivity|split; [discriminate|reflexivity]].
+    1,2: fold (inv_b m); destruct (inv_b m) eqn:E; [|left; reflexivity]; split; [|reflexivity];
+         unfold inv_b in E; apply andb_true_iff in E; destruct E as [_ E]; apply Nat.ltb_lt in E;
+         intros H; rewrite H in E; cbn in E; lia.
   Qed.
 
-  (** the part of both kernels up to the squared-distance matrix *)
+  Lemma sqdiff_empty_l (y : Shape.mat T) : sqdiff_plumbing O (mkMat 0 1 []) y = None.
+  Proof. reflexivity. Qed.
+  Lemma sqdiff_empty_r (x : Shape.mat T) : sqdiff_plumbing O x (mkMat 1 0 []) = None.
+  Proof. unfold sqdiff_plumbing, Shape.size. cbn [nrows ncols]. rewrite andb_false_r. reflexivity. Qed.
+
+  (** the part of both kernels up to the matrix of squared differences *)
   Lemma distance_stage (ax ay : karg T) (k : Broadcast.mat T -> option (Broadcast.mat T)) :
-    (let* x := to_column ax in let* y := to_column ay in let* d := sqdist_plumbing O x y in k d) =
+    (let* x := to_column ax in let* y := to_row ay in let* d := sqdiff_plumbing O x y in k d) =
     match points ax, points ay with
-    | Some xs, Some ys => k (mkmat (length xs) (length ys) (table_sq O (sqdist_sq O) xs ys))
+    | Some xs, Some ys => k (mkmat (length xs) (length ys) (sq_table O xs ys))
     | _, _ => None
     end.
   Proof.
-    pose proof (to_column_points ax) as Hx. pose proof (to_column_points ay) as Hy.
+    pose proof (to_column_points ax) as Hx. pose proof (to_row_points ay) as Hy.
     destruct (points ax) as [xs|].
     - destruct Hx as [Nx Hx]. rewrite Hx. cbn [bind].
       destruct (points ay) as [ys|].
-      + destruct Hy as [Ny Hy]. rewrite Hy. cbn [bind]. rewrite sqdist_plumbing_spec.
+      + destruct Hy as [Ny Hy]. rewrite Hy. cbn [bind]. rewrite sqdiff_plumbing_spec.
         destruct xs; [congruence|]. destruct ys; [congruence|]. reflexivity.
-      + destruct Hy as [Hy|Hy]; rewrite Hy; cbn [bind]; [reflexivity|]. rewrite sqdist_empty_r. reflexivity.
+      + destruct Hy as [Hy|Hy]; rewrite Hy; cbn [bind]; [reflexivity|]. rewrite sqdiff_empty_r. reflexivity.
     - destruct Hx as [Hx|Hx]; rewrite Hx; cbn [bind]; [reflexivity|].
-      destruct (to_column ay); [|destruct (points ay); reflexivity]. cbn [bind]. rewrite sqdist_empty_l.
+      destruct (to_row ay); [|destruct (points ay); reflexivity]. cbn [bind]. rewrite sqdiff_empty_l.
       destruct (points ay); reflexivity.
   Qed.
 
-  Lemma table_sq_length F (xs ys : list T) : length (table_sq O F xs ys) = length xs * length ys.
-  Proof. apply table_length. Qed.
+  Lemma points_nonempty (a : karg T) (xs : list T) : points a = Some xs -> 0 < length xs.
+  Proof.
+    intros E. pose proof (to_column_points a) as H. rewrite E in H. destruct H as [H _].
+    destruct xs; [congruence|cbn; lia].
+  Qed.
 
   (** ** RBF: closed form of the composition, acceptance and rejection at once, every carrier *)
   Theorem rbf_plumbing_any_carrier (var ls : T) (ax ay : karg T) :
     rbf_forward_plumbing O var ls ax ay =
     match points ax, points ay with
-    | Some xs, Some ys => Some (mkmat (length xs) (length ys) (table_sq O (rbf_entry_sq O var ls) xs ys))
+    | Some xs, Some ys => Some (mkmat (length xs) (length ys) (map (rbf_of_sq O var ls) (sq_table O xs ys)))
     | _, _ => None
     end.
   Proof.
     unfold rbf_forward_plumbing. rewrite distance_stage.
     destruct (points ax) as [xs|] eqn:Ex; [|reflexivity]. destruct (points ay) as [ys|] eqn:Ey; [|reflexivity].
-    assert (Hn : 0 < length xs).
-    { pose proof (to_column_points ax) as H. rewrite Ex in H. destruct H as [H _]. destruct xs; [congruence|cbn; lia]. }
-    assert (Hm : 0 < length ys).
-    { pose proof (to_column_points ay) as H. rewrite Ey in H. destruct H as [H _]. destruct ys; [congruence|cbn; lia]. }
-    rewrite C04Ops.mat_neg_wf by (apply wf_mkmat; auto using table_sq_length).
+    assert (Hn := points_nonempty _ _ Ex). assert (Hm := points_nonempty _ _ Ey).
+    rewrite C04Ops.mat_neg_wf by (apply wf_mkmat; auto using sq_table_length).
     cbn [bind Broadcast.nr Broadcast.nc Broadcast.dat].
-    rewrite matrix_op_f64_wf; [|cbn; discriminate|apply wf_mkmat; auto; rewrite map_length; apply table_sq_length].
+    rewrite matrix_op_f64_wf; [|cbn; discriminate|apply wf_mkmat; auto; rewrite map_length; apply sq_table_length].
     cbn [bind Broadcast.nr Broadcast.nc Broadcast.dat].
-    rewrite C04Ops.mat_map_wf by (apply wf_mkmat; auto; rewrite !map_length; apply table_sq_length).
+    rewrite C04Ops.mat_map_wf by (apply wf_mkmat; auto; rewrite !map_length; apply sq_table_length).
     cbn [bind Broadcast.nr Broadcast.nc Broadcast.dat].
-    rewrite matrix_op_f64_wf; [|cbn; discriminate|apply wf_mkmat; auto; rewrite !map_length; apply table_sq_length].
+    rewrite matrix_op_f64_wf; [|cbn; discriminate|apply wf_mkmat; auto; rewrite !map_length; apply sq_table_length].
     cbn [Broadcast.nr Broadcast.nc Broadcast.dat]. f_equal. f_equal.
-    unfold table_sq. rewrite !table_map. apply table_ext_fun. intros i j Hi Hj. reflexivity.
+    rewrite !map_map. reflexivity.
   Qed.
 
   (** ** rational quadratic *)
   Theorem rq_plumbing_any_carrier (var alpha ls : T) (ax ay : karg T) :
     rq_forward_plumbing O var alpha ls ax ay =
     match points ax, points ay with
-    | Some xs, Some ys => Some (mkmat (length xs) (length ys) (table_sq O (rq_entry_sq O var alpha ls) xs ys))
+    | Some xs, Some ys => Some (mkmat (length xs) (length ys) (map (rq_of_sq O var alpha ls) (sq_table O xs ys)))
     | _, _ => None
     end.
   Proof.
     unfold rq_forward_plumbing. rewrite distance_stage.
     destruct (points ax) as [xs|] eqn:Ex; [|reflexivity]. destruct (points ay) as [ys|] eqn:Ey; [|reflexivity].
-    assert (Hn : 0 < length xs).
-    { pose proof (to_column_points ax) as H. rewrite Ex in H. destruct H as [H _]. destruct xs; [congruence|cbn; lia]. }
-    assert (Hm : 0 < length ys).
-    { pose proof (to_column_points ay) as H. rewrite Ey in H. destruct H as [H _]. destruct ys; [congruence|cbn; lia]. }
-    rewrite matrix_op_f64_wf; [|cbn; discriminate|apply wf_mkmat; auto using table_sq_length].
+    assert (Hn := points_nonempty _ _ Ex). assert (Hm := points_nonempty _ _ Ey).
+    rewrite matrix_op_f64_wf; [|cbn; discriminate|apply wf_mkmat; auto using sq_table_length].
     cbn [bind Broadcast.nr Broadcast.nc Broadcast.dat].
-    rewrite f64_op_matrix_wf; [|cbn; discriminate|apply wf_mkmat; auto; rewrite !map_length; apply table_sq_length].
+    rewrite f64_op_matrix_wf; [|cbn; discriminate|apply wf_mkmat; auto; rewrite !map_length; apply sq_table_length].
     cbn [bind Broadcast.nr Broadcast.nc Broadcast.dat].
-    rewrite C04Ops.mat_powf_wf by (apply wf_mkmat; auto; rewrite !map_length; apply table_sq_length).
+    rewrite C04Ops.mat_powf_wf by (apply wf_mkmat; auto; rewrite !map_length; apply sq_table_length).
     cbn [bind Broadcast.nr Broadcast.nc Broadcast.dat].
-    rewrite matrix_op_f64_wf; [|cbn; discriminate|apply wf_mkmat; auto; rewrite !map_length; apply table_sq_length].
+    rewrite matrix_op_f64_wf; [|cbn; discriminate|apply wf_mkmat; auto; rewrite !map_length; apply sq_table_length].
     cbn [Broadcast.nr Broadcast.nc Broadcast.dat]. f_equal. f_equal.
-    unfold table_sq. rewrite !table_map. apply table_ext_fun. intros i j Hi Hj. reflexivity.
+    rewrite !map_map. reflexivity.
+  Qed.
+
+  (** ** entry (i, j) on EVERY carrier, no hypothesis: the scalar form's operations on the square of x_i - y_j, the square
+      being [d * d] when the flat position [i * m + j] lies in the 8-wide unrolled part of the [powi] kernel (the first
+      [n * m - (n * m) mod 8] positions) and [d.powi(2)] (the scalar code's own square, [1 * (d * d)]) in the remainder *)
+  Definition kernel_square (n m i j : nat) (e : T) : T :=
+    if i * m + j <? C04.chunked (n * m) then mul O e e else powi O e 2.
+
+  Lemma sq_table_nth (xs ys : list T) (i j : nat) (d : T) :
+    i < length xs -> j < length ys ->
+    nth (i * length ys + j) (sq_table O xs ys) d =
+    kernel_square (length xs) (length ys) i j (sub O (nth i xs d) (nth j ys d)).
+  Proof.
+    intros Hi Hj. unfold sq_table, vpowi. change ((2 =? 2)%Z) with true. cbv iota.
+    assert (Hp : i * length ys + j < length (diff_table O xs ys)) by (rewrite diff_table_length; nia).
+    rewrite C04.kernel1_nth by exact Hp. rewrite diff_table_length. unfold kernel_square, diff_table.
+    rewrite table_nth by assumption.
+    rewrite (nth_indep xs z d Hi), (nth_indep ys z d Hj). reflexivity.
+  Qed.
+
+  Theorem rbf_plumbing_entry_any_carrier (var ls : T) (ax ay : karg T) (xs ys : list T) (i j : nat) (d : T) :
+    points ax = Some xs -> points ay = Some ys -> i < length xs -> j < length ys ->
+    exists r, rbf_forward_plumbing O var ls ax ay = Some r /\
+              Broadcast.nr r = length xs /\ Broadcast.nc r = length ys /\
+              length (Broadcast.dat r) = length xs * length ys /\
+              nth (i * Broadcast.nc r + j) (Broadcast.dat r) d =
+              rbf_of_sq O var ls (kernel_square (length xs) (length ys) i j (sub O (nth i xs d) (nth j ys d))).
+  Proof.
+    intros Ex Ey Hi Hj. rewrite rbf_plumbing_any_carrier, Ex, Ey. eexists; split; [reflexivity|].
+    cbn [Broadcast.nr Broadcast.nc Broadcast.dat]. repeat split.
+    - rewrite map_length. apply sq_table_length.
+    - rewrite (nth_indep _ d (rbf_of_sq O var ls d)) by (rewrite map_length, sq_table_length; nia).
+      rewrite map_nth, sq_table_nth by assumption. reflexivity.
+  Qed.
+  Theorem rq_plumbing_entry_any_carrier (var alpha ls : T) (ax ay : karg T) (xs ys : list T) (i j : nat) (d : T) :
+    points ax = Some xs -> points ay = Some ys -> i < length xs -> j < length ys ->
+    exists r, rq_forward_plumbing O var alpha ls ax ay = Some r /\
+              Broadcast.nr r = length xs /\ Broadcast.nc r = length ys /\
+              length (Broadcast.dat r) = length xs * length ys /\
+              nth (i * Broadcast.nc r + j) (Broadcast.dat r) d =
+              rq_of_sq O var alpha ls (kernel_square (length xs) (length ys) i j (sub O (nth i xs d) (nth j ys d))).
+  Proof.
+    intros Ex Ey Hi Hj. rewrite rq_plumbing_any_carrier, Ex, Ey. eexists; split; [reflexivity|].
+    cbn [Broadcast.nr Broadcast.nc Broadcast.dat]. repeat split.
+    - rewrite map_length. apply sq_table_length.
+    - rewrite (nth_indep _ d (rq_of_sq O var alpha ls d)) by (rewrite map_length, sq_table_length; nia).
+      rewrite map_nth, sq_table_nth by assumption. reflexivity.
   Qed.
 End Forward.
 
-(** ** From the kernel's squares to the net entry formula *)
+(** ** From the kernel's square to the scalar form *)
 Section Net.
   Context {T : Type} (O : Ops T).
   Local Notation z := (zero O).
-  (** the only fact about the carrier that is used: the unrolled part of the [powi] kernel computes [x * x] where the
-      scalar code computes [x.powi(2)] ([= 1 * (x * x)] by square-and-multiply); these agree on the reals and, bit for
+  (** the only fact about the carrier that is used: the unrolled part of the [powi] kernel computes [d * d] where the
+      scalar code computes [d.powi(2)] ([= 1 * (d * d)] by square-and-multiply); these agree on the reals and, bit for
       bit, on binary64 (C04_powi2_is_mul) *)
   Hypothesis Hsq : forall x : T, mul O x x = powi O x 2.
 
-  Lemma table_sq_net (F : T -> T -> T -> T -> T) (xs ys : list T) :
-    table_sq O F xs ys = flatten (map (fun x => map (fun y => F (powi O x 2) (powi O y 2) x y) ys) xs).
+  Lemma sq_table_net (G : T -> T) (xs ys : list T) :
+    map G (sq_table O xs ys) = flatten (map (fun x => map (fun y => G (powi O (sub O x y) 2)) ys) xs).
   Proof.
-    unfold table_sq, flatten.
-    rewrite <- (table_of_lists (fun x y => F (powi O x 2) (powi O y 2) x y) xs ys z).
-    apply table_ext_fun. intros i j Hi Hj.
-    assert (E : forall (l : list T) k, k < length l -> nth k (vpowi O l 2) z = powi O (nth k l z) 2).
-    { intros l k Hk. rewrite C04.vpowi_pointwise; [|intros _ x _; apply Hsq|discriminate].
-      rewrite (nth_indep _ z (powi O z 2)) by (rewrite map_length; exact Hk).
-      apply (map_nth (fun x => powi O x 2)). }
-    rewrite !E by assumption. reflexivity.
+    unfold sq_table, diff_table, flatten.
+    rewrite C04.vpowi_pointwise; [|intros _ x _; apply Hsq|discriminate].
+    rewrite <- (table_of_lists (fun x y => G (powi O (sub O x y) 2)) xs ys z).
+    rewrite !table_map. reflexivity.
   Qed.
 
   Theorem rbf_plumbing_net (var ls : T) (ax ay : karg T) :
@@ -449,7 +483,7 @@ Section Net.
     end.
   Proof.
     rewrite rbf_plumbing_any_carrier. destruct (points ax) as [xs|]; [|reflexivity].
-    destruct (points ay) as [ys|]; [|reflexivity]. rewrite table_sq_net. reflexivity.
+    destruct (points ay) as [ys|]; [|reflexivity]. rewrite sq_table_net. reflexivity.
   Qed.
 
   Theorem rq_plumbing_net (var alpha ls : T) (ax ay : karg T) :
@@ -460,10 +494,10 @@ Section Net.
     end.
   Proof.
     rewrite rq_plumbing_any_carrier. destruct (points ax) as [xs|]; [|reflexivity].
-    destruct (points ay) as [ys|]; [|reflexivity]. rewrite table_sq_net. reflexivity.
+    destruct (points ay) as [ys|]; [|reflexivity]. rewrite sq_table_net. reflexivity.
   Qed.
 
-  (** entry (i, j) of the flat row-major result is the entry formula at (xs_i, ys_j) *)
+  (** entry (i, j) of the flat row-major result is the SCALAR form at (xs_i, ys_j) *)
   Lemma net_entry {B} (F : T -> T -> B) (xs ys : list T) (i j : nat) (d : T) (db : B) :
     i < length xs -> j < length ys ->
     nth (i * length ys + j) (flatten (map (fun x => map (fun y => F x y) ys) xs)) db = F (nth i xs d) (nth j ys d).
@@ -477,12 +511,12 @@ Section Net.
     exists r, rbf_forward_plumbing O var ls ax ay = Some r /\
               Broadcast.nr r = length xs /\ Broadcast.nc r = length ys /\
               length (Broadcast.dat r) = length xs * length ys /\
-              nth (i * Broadcast.nc r + j) (Broadcast.dat r) d = rbf_entry O var ls (nth i xs d) (nth j ys d).
+              nth (i * Broadcast.nc r + j) (Broadcast.dat r) d = rbf O var ls (nth i xs d) (nth j ys d).
   Proof.
     intros Ex Ey Hi Hj. rewrite rbf_plumbing_net, Ex, Ey. eexists; split; [reflexivity|].
     cbn [Broadcast.nr Broadcast.nc Broadcast.dat]. repeat split.
-    - unfold flatten, rbf_matrix. rewrite <- (table_of_lists (rbf_entry O var ls) xs ys d). apply table_length.
-    - apply (net_entry (rbf_entry O var ls)); assumption.
+    - unfold flatten, rbf_matrix. rewrite <- (table_of_lists (rbf O var ls) xs ys d). apply table_length.
+    - apply (net_entry (rbf O var ls)); assumption.
   Qed.
 
   Theorem rq_plumbing_entry (var alpha ls : T) (ax ay : karg T) (xs ys : list T) (i j : nat) (d : T) :
@@ -490,13 +524,26 @@ Section Net.
     exists r, rq_forward_plumbing O var alpha ls ax ay = Some r /\
               Broadcast.nr r = length xs /\ Broadcast.nc r = length ys /\
               length (Broadcast.dat r) = length xs * length ys /\
-              nth (i * Broadcast.nc r + j) (Broadcast.dat r) d = rq_entry O var alpha ls (nth i xs d) (nth j ys d).
+              nth (i * Broadcast.nc r + j) (Broadcast.dat r) d = rq O var alpha ls (nth i xs d) (nth j ys d).
   Proof.
     intros Ex Ey Hi Hj. rewrite rq_plumbing_net, Ex, Ey. eexists; split; [reflexivity|].
     cbn [Broadcast.nr Broadcast.nc Broadcast.dat]. repeat split.
-    - unfold flatten, rq_matrix. rewrite <- (table_of_lists (rq_entry O var alpha ls) xs ys d). apply table_length.
-    - apply (net_entry (rq_entry O var alpha ls)); assumption.
+    - unfold flatten, rq_matrix. rewrite <- (table_of_lists (rq O var alpha ls) xs ys d). apply table_length.
+    - apply (net_entry (rq O var alpha ls)); assumption.
   Qed.
+
+  (** both kernels at once *)
+  Theorem matrix_form_entry_is_scalar_form (var alpha ls : T) (ax ay : karg T) (xs ys : list T) (i j : nat) (d : T) :
+    points ax = Some xs -> points ay = Some ys -> i < length xs -> j < length ys ->
+    (exists r, rbf_forward_plumbing O var ls ax ay = Some r /\
+               Broadcast.nr r = length xs /\ Broadcast.nc r = length ys /\
+               length (Broadcast.dat r) = length xs * length ys /\
+               nth (i * Broadcast.nc r + j) (Broadcast.dat r) d = rbf O var ls (nth i xs d) (nth j ys d)) /\
+    (exists r, rq_forward_plumbing O var alpha ls ax ay = Some r /\
+               Broadcast.nr r = length xs /\ Broadcast.nc r = length ys /\
+               length (Broadcast.dat r) = length xs * length ys /\
+               nth (i * Broadcast.nc r + j) (Broadcast.dat r) d = rq O var alpha ls (nth i xs d) (nth j ys d)).
+  Proof. intros Ex Ey Hi Hj. split; [apply rbf_plumbing_entry|apply rq_plumbing_entry]; assumption. Qed.
 End Net.
 
 (** ** Rejection: exactly the calls without a point set panic (every carrier, no hypothesis) *)
@@ -581,3 +628,37 @@ Theorem rq_plumbing_binary64 (tbl : libm_table) (var alpha ls : float) (ax ay : 
   | _, _ => None
   end.
 Proof. exact (rq_plumbing_net (FO tbl) (C04Float.powi2_is_mul tbl) var alpha ls ax ay). Qed.
+
+(** the matrix form equals the scalar form entry by entry, BIT FOR BIT on binary64 with every libm table (the same table
+    answers both: the matrix form asks libm for exactly the arguments the scalar form asks for), and on the reals *)
+Theorem matrix_form_entry_is_scalar_form_binary64 (tbl : libm_table) (var alpha ls : float) (ax ay : karg float)
+    (xs ys : list float) (i j : nat) (d : float) :
+  points ax = Some xs -> points ay = Some ys -> i < length xs -> j < length ys ->
+  (exists r, rbf_forward_plumbing (FO tbl) var ls ax ay = Some r /\
+             Broadcast.nr r = length xs /\ Broadcast.nc r = length ys /\
+             length (Broadcast.dat r) = length xs * length ys /\
+             nth (i * Broadcast.nc r + j) (Broadcast.dat r) d = rbf (FO tbl) var ls (nth i xs d) (nth j ys d)) /\
+  (exists r, rq_forward_plumbing (FO tbl) var alpha ls ax ay = Some r /\
+             Broadcast.nr r = length xs /\ Broadcast.nc r = length ys /\
+             length (Broadcast.dat r) = length xs * length ys /\
+             nth (i * Broadcast.nc r + j) (Broadcast.dat r) d = rq (FO tbl) var alpha ls (nth i xs d) (nth j ys d)).
+Proof. exact (matrix_form_entry_is_scalar_form (FO tbl) (C04Float.powi2_is_mul tbl) var alpha ls ax ay xs ys i j d). Qed.
+Theorem matrix_form_entry_is_scalar_form_R (var alpha ls : R) (ax ay : karg R) (xs ys : list R) (i j : nat) (d : R) :
+  points ax = Some xs -> points ay = Some ys -> i < length xs -> j < length ys ->
+  (exists r, rbf_forward_plumbing RO var ls ax ay = Some r /\
+             Broadcast.nr r = length xs /\ Broadcast.nc r = length ys /\
+             length (Broadcast.dat r) = length xs * length ys /\
+             nth (i * Broadcast.nc r + j) (Broadcast.dat r) d = rbf RO var ls (nth i xs d) (nth j ys d)) /\
+  (exists r, rq_forward_plumbing RO var alpha ls ax ay = Some r /\
+             Broadcast.nr r = length xs /\ Broadcast.nc r = length ys /\
+             length (Broadcast.dat r) = length xs * length ys /\
+             nth (i * Broadcast.nc r + j) (Broadcast.dat r) d = rq RO var alpha ls (nth i xs d) (nth j ys d)).
+Proof. exact (matrix_form_entry_is_scalar_form RO sq_is_powi_R var alpha ls ax ay xs ys i j d). Qed.
+
+(** the defect the repair removes, on binary64 (no libm involved): for the two points 999 and 999.000001 the ORIGINAL squared
+    distance x^2 + y^2 - 2 (0 + x y) is NEGATIVE (-2^-32; true value 1e-12); the difference-first square is positive *)
+Lemma original_expanded_square_negative :
+  let x := 0x1.f380000000000p+9%float in let y := 0x1.f3800008637bdp+9%float in
+  PrimFloat.ltb (C20.sqdist_expanded FO0 x y) 0%float = true /\
+  PrimFloat.ltb 0%float (powi FO0 (Ops.sub FO0 x y) 2) = true.
+Proof. cbv zeta. split; vm_compute; reflexivity. Qed.
